@@ -47,7 +47,11 @@ RULE = ("E1: every string of length <= L (L=5 quick, 6 thorough; quick "
         "parameter, regex body/delimiter, collector) x %d payloads (format "
         "braces and percent directives, non-ASCII digits, numbers int() "
         "rejects or that exceed the int-to-str limit, control characters, a "
-        "lone surrogate). "
+        "lone surrogate). E4: atheris (libFuzzer) coverage-guided campaigns over "
+        "(text) with the yamlpath package instrumented, a token dictionary, "
+        "half of them from an empty corpus and half seeded with valid paths; "
+        "each corpus unit (an input that added coverage) counts as one "
+        "distinct non-trivial case. "
         "A case is non-trivial when the text has >= 2 characters of which "
         ">= 1 is syntactically significant (not a letter/digit); enumerated "
         "strings are distinct by construction, random ones are counted by "
@@ -221,6 +225,11 @@ def plan(tier, seed):
             shards.append({"kind": "enum", "prefix": a + b, "maxlen": maxlen})
     for i in range(4):
         shards.append({"kind": "slots", "part": i, "parts": 4})
+    # coverage-guided campaigns (atheris / libFuzzer), one process per shard
+    nfz, runs = (8, 12000) if tier == "quick" else (16, 1500000)
+    for i in range(nfz):
+        shards.append({"kind": "atheris", "seed": seed * 100 + i + 1,
+                       "runs": runs, "empty_corpus": i % 2 == 1})
     nhyp = 16 if tier == "quick" else 64
     per = 6000 if tier == "quick" else 40000
     for i in range(nhyp):
@@ -252,6 +261,8 @@ def run_shard(shard):
                         return res
             if batch:
                 _run_batch(batch, res, "enum", False)
+    elif shard["kind"] == "atheris":
+        _run_atheris(shard, res, dl)
     elif shard["kind"] == "slots":
         texts = slot_texts()[shard["part"]::shard["parts"]]
         _run_batch(texts, res, "slots", True)
@@ -259,6 +270,93 @@ def run_shard(shard):
     else:
         _run_hyp(shard, res, dl)
     return res
+
+
+FUZZ_DICT = ["[", "]", "(", ")", "'", '"', "\\\\", "&", "*", "**", "!", "=",
+             "==", "!=", "<", ">", "<=", ">=", "=~", "^", "$", "%", ".", "/",
+             ",", ":", "+", "-", " ", "has_child(", "name(", "max(", "min(",
+             "parent(", "unique(", "distinct(", ")]", "[.", "[!", "(/", ")+(",
+             ")-(", ")&(", "[&", "[0]", "[1:2]", "{}", "\\\\.", "\\\\/"]
+
+
+def _run_atheris(shard, res, dl):
+    """One libFuzzer campaign in a child process; its findings file lists the
+    smallest failing input per signature (the child never aborts on one)."""
+    import json
+    import os
+    import shutil
+    import subprocess
+    import sys
+    import tempfile
+    here = os.path.dirname(os.path.dirname(os.path.abspath(__file__)))
+    target = os.path.join(here, "fuzz", "target_c14.py")
+    tmp = tempfile.mkdtemp(prefix="vp-c14-fuzz-")
+    try:
+        corpus = os.path.join(tmp, "corpus")
+        os.mkdir(corpus)
+        if not shard.get("empty_corpus"):
+            for i, text in enumerate(VALID_PATHS):
+                with open(os.path.join(corpus, "seed%03d" % i), "wb") as fh:
+                    fh.write(b"\x00" + text.encode("ascii", "replace"))
+        dictfile = os.path.join(tmp, "dict")
+        with open(dictfile, "w") as fh:
+            for tok in FUZZ_DICT:
+                fh.write('"%s"\n' % tok.replace('"', '\\"'))
+        findings = os.path.join(tmp, "findings.json")
+        budget = int(shard.get("budget_s") or 600)
+        cmd = [sys.executable, target, findings, "-runs=%d" % shard["runs"],
+               "-seed=%d" % shard["seed"], "-max_len=64",
+               "-dict=" + dictfile, "-print_final_stats=1",
+               "-max_total_time=%d" % max(budget - 20, 10),
+               "-rss_limit_mb=2048", "-timeout=25", corpus]
+        try:
+            proc = subprocess.run(cmd, stdin=subprocess.DEVNULL,
+                                  stdout=subprocess.PIPE,
+                                  stderr=subprocess.STDOUT, text=True,
+                                  errors="replace", timeout=budget + 60,
+                                  cwd=tmp)
+            out = proc.stdout
+            code = proc.returncode
+        except subprocess.TimeoutExpired as exc:
+            out = (exc.stdout or b"").decode("utf-8", "replace") \
+                if isinstance(exc.stdout, bytes) else (exc.stdout or "")
+            code = -1
+        execs = 0
+        for line in out.splitlines():
+            if line.startswith("stat::number_of_executed_units:"):
+                execs = int(line.split(":")[-1])
+        if os.path.exists(findings):
+            for rec in json.load(open(findings)):
+                res.fail(rec["sig"], rec["case"], rec["detail"])
+        if code != 0:
+            # libFuzzer's own verdicts: a hang (-timeout) or a crash of the
+            # interpreter; the offending input is in the artifact file
+            arts = [f for f in os.listdir(tmp)
+                    if f.startswith(("timeout-", "crash-", "oom-"))]
+            if arts:
+                data = open(os.path.join(tmp, arts[0]), "rb").read()
+                res.fail({"clause": "terminates" if arts[0].startswith(
+                    "timeout-") else "fuzzer-artifact",
+                    "kind": arts[0].split("-")[0]},
+                    {"text": data[1:].decode("utf-8", "replace"),
+                     "mode": "any", "raw": data.hex()},
+                    "libFuzzer exit %d" % code)
+            elif not execs:
+                raise RuntimeError("atheris campaign failed to run:\n"
+                                   + out[-1500:])
+        units = len(os.listdir(corpus))
+        res.evaluations += execs * 3
+        res.nt_count += units          # inputs that added coverage
+        res.label("atheris:execs", execs)
+        res.label("atheris:corpus-units", units)
+        res.label("atheris:%s-corpus" % ("empty" if shard.get("empty_corpus")
+                                         else "seeded"))
+        if len(res.samples) < 2 and units:
+            name = sorted(os.listdir(corpus))[-1]
+            raw = open(os.path.join(corpus, name), "rb").read()
+            res.samples.append({"corpus_unit_hex": raw.hex()[:200]})
+    finally:
+        shutil.rmtree(tmp, ignore_errors=True)
 
 
 def _strategy():
